@@ -10,6 +10,7 @@ import (
 	"os"
 	"path"
 	"runtime/debug"
+	"sync"
 	"time"
 
 	"github.com/rs/zerolog/log"
@@ -89,7 +90,14 @@ func newGenerateCommand() *cobra.Command {
 
 // dedup fsnotify events
 func dedupLoop(configArgs map[string]string, w *fsnotify.Watcher, completedChannel chan<- error) {
+	// Regenerations are started from timer goroutines and must not overlap: a slow one
+	// working on older file contents would otherwise finish after a newer one and
+	// overwrite its output.
+	var regenerateMutex sync.Mutex
 	regenerate := func() {
+		regenerateMutex.Lock()
+		defer regenerateMutex.Unlock()
+
 		dirsToWatch := generateInWatchMode(configArgs)
 		if dirsToWatch != nil && len(dirsToWatch) > len(w.WatchList()) {
 			for _, dir := range dirsToWatch {
